@@ -357,3 +357,102 @@ func init() {
 func exactSuffixStub(ex *Exec, name string) {
 	suffixStubs[name](ex, nil, nil)
 }
+
+// ---- net/http message I/O (C16, control flow only): requests are objects queued by the harness;
+// http.ReadRequest takes the next one (io.EOF when none is left), (*http.Request).Write records
+// which request object was written out.  No bytes are modelled.
+func init() {
+	suffixStubs["vfHTTPQueue"] = func(ex *Exec, fn *ssa.Function, args []Value) Value {
+		q, _ := ex.ghost["http.queue"].([]Value)
+		ex.ghost["http.queue"] = append(q, args[0])
+		return nil
+	}
+	regStub("net/http.ReadRequest", func(ex *Exec, fn *ssa.Function, args []Value) Value {
+		q, _ := ex.ghost["http.queue"].([]Value)
+		if len(q) == 0 {
+			return TupleV{ex.zero(fn.Signature.Results().At(0).Type()), ex.globalValue("io", "EOF")}
+		}
+		ex.ghost["http.queue"] = q[1:]
+		return TupleV{q[0], &IfaceV{}}
+	})
+	regStub("(*net/http.Request).Write", func(ex *Exec, fn *ssa.Function, args []Value) Value {
+		w, _ := ex.ghost["http.written"].([]Value)
+		ex.ghost["http.written"] = append(w, args[0])
+		return &IfaceV{}
+	})
+	suffixStubs["vfHTTPInput"] = func(ex *Exec, fn *ssa.Function, args []Value) Value { return &IfaceV{} }
+	suffixStubs["vfHTTPWire"] = func(ex *Exec, fn *ssa.Function, args []Value) Value {
+		return ex.zero(fn.Signature.Results().At(0).Type())
+	}
+	suffixStubs["vfHTTPOutput"] = func(ex *Exec, fn *ssa.Function, args []Value) Value { return nil }
+	suffixStubs["vfHTTPWrittenCount"] = func(ex *Exec, fn *ssa.Function, args []Value) Value {
+		w, _ := ex.ghost["http.written"].([]Value)
+		return BV(64, uint64(len(w)))
+	}
+	suffixStubs["vfHTTPWritten"] = func(ex *Exec, fn *ssa.Function, args []Value) Value {
+		// the i-th request written out (as the same *http.Request object)
+		w, _ := ex.ghost["http.written"].([]Value)
+		i, ok := args[0].(*Term).ConstVal()
+		if !ok || int(i) >= len(w) {
+			panic(unsupported("vfHTTPWritten: index"))
+		}
+		return w[i]
+	}
+}
+
+// responses (C16): same idea as for requests
+func init() {
+	suffixStubs["vfHTTPQueueResponse"] = func(ex *Exec, fn *ssa.Function, args []Value) Value {
+		q, _ := ex.ghost["http.rqueue"].([]Value)
+		ex.ghost["http.rqueue"] = append(q, args[0])
+		return nil
+	}
+	suffixStubs["vfHTTPRespPending"] = func(ex *Exec, fn *ssa.Function, args []Value) Value {
+		q, _ := ex.ghost["http.rqueue"].([]Value)
+		return BV(64, uint64(len(q)))
+	}
+	regStub("net/http.ReadResponse", func(ex *Exec, fn *ssa.Function, args []Value) Value {
+		// whatever the caller peeked is consumed with the message
+		if br, ok := args[0].(*Ptr); ok && !isNilPtr(br) {
+			st := ex.namedType("bufio", "Reader").Underlying().(*types.Struct)
+			tv := getAt(br.Obj.Val, br.Path).(TupleV)
+			ri, wi := -1, -1
+			for i := 0; i < st.NumFields(); i++ {
+				switch st.Field(i).Name() {
+				case "r":
+					ri = i
+				case "w":
+					wi = i
+				}
+			}
+			if ri >= 0 && wi >= 0 {
+				tv[ri] = tv[wi]
+			}
+		}
+		q, _ := ex.ghost["http.rqueue"].([]Value)
+		if len(q) == 0 {
+			return TupleV{ex.zero(fn.Signature.Results().At(0).Type()), ex.globalValue("io", "ErrUnexpectedEOF")}
+		}
+		ex.ghost["http.rqueue"] = q[1:]
+		return TupleV{q[0], &IfaceV{}}
+	})
+	regStub("(*net/http.Response).Write", func(ex *Exec, fn *ssa.Function, args []Value) Value {
+		w, _ := ex.ghost["http.rwritten"].([]Value)
+		ex.ghost["http.rwritten"] = append(w, args[0])
+		return &IfaceV{}
+	})
+	suffixStubs["vfHTTPRespWrittenCount"] = func(ex *Exec, fn *ssa.Function, args []Value) Value {
+		w, _ := ex.ghost["http.rwritten"].([]Value)
+		return BV(64, uint64(len(w)))
+	}
+	suffixStubs["vfHTTPRespWritten"] = func(ex *Exec, fn *ssa.Function, args []Value) Value {
+		w, _ := ex.ghost["http.rwritten"].([]Value)
+		i, ok := args[0].(*Term).ConstVal()
+		if !ok || int(i) >= len(w) {
+			panic(unsupported("vfHTTPRespWritten: index"))
+		}
+		return w[i]
+	}
+	suffixStubs["vfHTTPRespOutput"] = func(ex *Exec, fn *ssa.Function, args []Value) Value { return nil }
+	suffixStubs["vfHTTPRespNative"] = func(ex *Exec, fn *ssa.Function, args []Value) Value { return &IfaceV{} }
+}
